@@ -124,6 +124,16 @@ def master_layout(rng, axes, kind):
         corners = [tuple(c) for c in itertools.product(*choices)]
         rng.shuffle(corners)
         locs += [c for c in corners if c not in locs][: rng.randint(1, 3)]
+    if kind == "diagonal" and len(axes) >= 2:
+        # masters along the main diagonal: every axis at the same fraction of its positive (or negative) half - equal
+        # ratios on several axes, the tie case of the region-splitting rule
+        w = [2 if b[i][2] != b[i][1] else 0 for i in range(len(axes))]
+        for frac in (1.0, 0.5) + ((0.25,) if rng.random() < 0.4 else ()):
+            l = tuple(b[i][1] + frac * (b[i][w[i]] - b[i][1]) for i in range(len(axes)))
+            if l not in locs:
+                locs.append(l)
+        if rng.random() < 0.5:
+            locs += [x for x in on_axis if x not in locs][: rng.randint(0, 2)]
     if kind in ("intermediate", "mixed"):
         for _ in range(rng.randint(1, 2)):
             i, w = rng.choice(sides)
